@@ -2,13 +2,72 @@
 BASE_NOTE = ("Trusted: Lean kernel + axioms {propext, Classical.choice, Quot.sound}; the hand-written model is tied to the code "
              "by the differential correspondence run (sampling) and by the constants translator; rustc layout, core::ptr copy "
              "semantics, Layout::array and the global-allocator contract are modelled, not verified; 64-bit only.")
+CORR = (" Correspondence: generated operation plans (all allocation flavours, Allocator-trait grow/shrink/dealloc, "
+        "failed initialisers, resets, limits, allocator refusal scripts, MIN_ALIGN 1..16, minimally aligned chunk bases) run "
+        "on the real crate in-process; every line is replayed on the compiled Lean model with the allocator answers observed "
+        "and compared on the fields relevant to this property; model-independent oracles on the real crate produce the replay.")
 CLAIMS = {
+    "C01": dict(
+        text="Theorems (Lean, all histories by invariant): ArenaWF is established by the constructors and preserved by every "
+             "allocation flavour, dealloc and reset, for every allocator answer list satisfying the allocator contract; every "
+             "successful allocation returns a non-null block inside the used part [finger, footer) of a held chunk (so inside held "
+             "memory and outside the footer) and disjoint from every region that was in a used part before (hence from every live "
+             "block); zero-sized requests move nothing; no assertion/wrap/UB outcome is reachable." + CORR +
+             " Partial: the in-place paths of grow/shrink and the rewind of failed initialisers are covered by the "
+             "correspondence and oracles (interval map, canaries); their Lean frame lemmas are in Props/C12 and C11 as far as proved.",
+        note=BASE_NOTE),
+    "C03": dict(
+        text="Theorems: a ledger computed from the allocator event log alone (malloc adds, free erases the exact (addr,size,align)) "
+             "always equals the arena's chunk list: preserved by every allocation flavour (which never frees and leaves it unchanged "
+             "on failure/refusal), reset frees exactly the non-newest chunks once each with their own layout, drop frees all and "
+             "leaves the ledger empty; the static empty chunk is never freed; dealloc never talks to the allocator." + CORR +
+             " 'Not while a reference can be alive' rests on C05 (reset/drop need exclusive access).",
+        note=BASE_NOTE),
     "C04": dict(
-        text="Theorems (Lean): every pointer the fast path returns is aligned to the requested alignment and to MIN_ALIGN for all "
-             "power-of-two alignments, sizes (0 included) and finger positions; constructors panic for unsupported MIN_ALIGN; the static "
-             "empty chunk's alignment (regenerated from its repr attribute) is a multiple of 16. Correspondence: pointers returned by "
-             "every allocation/grow/shrink flavour agree with the model on generated plans for MIN_ALIGN 1..16, with an alignment oracle "
-             "on the real crate.",
+        text="Theorems: every pointer returned by any allocation flavour (fast path, fresh chunk, fallible or not) at every well-formed "
+             "state incl. the chunk-less arena is aligned to the request and to MIN_ALIGN, for all power-of-two alignments and sizes "
+             "(0 included) and every chunk base; dealloc keeps the finger MIN_ALIGN-aligned; constructors panic for unsupported "
+             "MIN_ALIGN; the static empty chunk's declared alignment (regenerated from source) is a multiple of 16." + CORR,
+        note=BASE_NOTE),
+    "C06": dict(
+        text="Theorems: after reset exactly the newest chunk is kept with finger = footer (iteration yields one empty slice), the "
+             "others are freed in order, limit and MIN_ALIGN unchanged, invariant kept; the kept chunk's whole usable size is "
+             "again served by the fast path with no allocator event; reset of a chunk-less arena is a no-op; reset is idempotent." + CORR,
+        note=BASE_NOTE),
+    "C07": dict(
+        text="Theorems: whenever an allocation acquires a chunk while a limit L is set, usable bytes held before + the new chunk's "
+             "usable size ≤ L (also when L is below what is held: then nothing is acquired); the fast path never consults the limit; "
+             "with no limit the limit machinery is inert." + CORR + " Limit monitor oracle on every malloc of the real crate.",
+        note=BASE_NOTE),
+    "C08": dict(
+        text="Theorems: in every well-formed arena allocated_bytes_including_metadata = total size of held chunks and allocated_bytes = "
+             "that minus one footer per chunk, both 0 when chunk-less; allocations that acquire no chunk, failed allocations, dealloc "
+             "and limit changes leave both unchanged; reset recomputes them for the kept chunk (usable size, without footer)." + CORR,
+        note=BASE_NOTE),
+    "C09": dict(
+        text="Theorems: try_alloc_layout is total (Ok/Err, never panic, never an assertion, candidate loop terminates) for every valid "
+             "layout, arena state and refusal pattern; on Err the arena and memory are unchanged and only refused requests reached the "
+             "allocator; alloc_layout panics exactly when try_alloc_layout errs and is otherwise identical; fallible constructors never "
+             "panic for supported MIN_ALIGN." + CORR + " Hang watchdog (300k refusals in one call) and catch_unwind on every call.",
+        note=BASE_NOTE),
+    "C10": dict(
+        text="Theorems: iteration = one slice [finger, footer) per held chunk, newest first, inside its chunk; every region in a used part "
+             "(every live non-empty block) lies in exactly one slice; uniform allocations (align A ≥ MIN_ALIGN, A ≤ 16, size multiple of A) "
+             "are placed with no padding below the finger, and the first object of a fresh chunk ends at its footer." + CORR +
+             " Partial: the history-level 'slices = concatenation of live objects' invariant is checked by the uniform-tiling oracle on "
+             "the real crate (incl. failed initialisers / slice fills in between), not yet as a Lean invariant.",
+        note=BASE_NOTE),
+    "C18": dict(
+        text="Theorems (arena part): an arena built with capacity c serves any request list with sizes multiples of MIN_ALIGN, aligns ≤ "
+             "MIN_ALIGN and total ≤ c from its first chunk alone; a request of exactly chunk_capacity() bytes is served by the fast path; "
+             "every chunk created by the slow path is non-empty and at least as large as the request." + CORR +
+             " Vec/String part (reserve then push without moving, amortised growth): see the vec family when composed.",
+        note=BASE_NOTE),
+    "C19": dict(
+        text="Theorems (arena entry points): Layout::array refuses exactly the (element size, count) pairs whose total does not fit "
+             "isize::MAX (no wrap); an unrepresentable slice length yields Err/panic without touching the arena; chunk sizing never "
+             "wraps or panics for valid layouts; a successful allocation's block lies inside a held chunk's usable region; constructors "
+             "refuse unrepresentable capacities." + CORR + " RawVec/Vec/String entry points: vec family.",
         note=BASE_NOTE),
 }
 NOT_CLAIMED = {}
@@ -20,3 +79,6 @@ for _m in ("claims_vec", "claims_str", "claims_box", "claims_borrow", "claims_th
         NOT_CLAIMED.update(getattr(_mod, "NOT_CLAIMED", {}))
     except ImportError:
         pass
+
+# properties whose check is complete enough to be claimed in MANIFEST.json (the lead flips these on)
+READY = {"C01", "C03", "C04", "C06", "C07", "C08", "C09", "C10", "C18", "C19"}
